@@ -22,7 +22,7 @@ Definition itoa_small (id : Z) : list N := [Z.to_N (48 + id)].
 
 Definition cipher_marshal (c : list N) : list N := itoa_small (cipher_id c).
 
-(* (*Cipher).UnmarshalJSON(dataB): the new value of the receiver *)
+(* Cipher.UnmarshalJSON(dataB) on a pointer receiver: the new value of the receiver *)
 Definition cipher_unmarshal (data : list N) : res (list N) :=
   if (match data with [] => true | _ => false end) || str_is data "null" then err
   else match atoi data with
